@@ -533,11 +533,16 @@ func (sched *StdScheduler) startExecutionLoop(ctx context.Context) {
 	defer sched.wg.Done()
 	const maxTimerDuration = time.Duration(1<<63 - 1)
 	timer := time.NewTimer(maxTimerDuration)
+	// set when the queue failed while a job was being fetched or rescheduled
+	var failed bool
 	for {
 		queueSize, err := sched.queue.Size()
 		switch {
 		case err != nil:
 			sched.logger.Error("Failed to fetch queue size", "error", err)
+			timer.Reset(sched.opts.RetryInterval)
+		case failed:
+			// do not hammer a failing queue
 			timer.Reset(sched.opts.RetryInterval)
 		case queueSize == 0:
 			sched.logger.Trace("Queue is empty")
@@ -548,7 +553,7 @@ func (sched *StdScheduler) startExecutionLoop(ctx context.Context) {
 		select {
 		case <-timer.C:
 			sched.logger.Trace("Tick")
-			sched.executeAndReschedule(ctx)
+			failed = sched.executeAndReschedule(ctx) != nil
 
 		case <-sched.interrupt:
 			sched.logger.Trace("Interrupted waiting for next tick")
@@ -605,9 +610,9 @@ func (sched *StdScheduler) calculateNextTick() time.Duration {
 	return nextTickDuration
 }
 
-func (sched *StdScheduler) executeAndReschedule(ctx context.Context) {
+func (sched *StdScheduler) executeAndReschedule(ctx context.Context) error {
 	// fetch a job for processing
-	scheduled, valid := sched.fetchAndReschedule()
+	scheduled, valid, err := sched.fetchAndReschedule()
 
 	// execute the job
 	if valid {
@@ -620,7 +625,7 @@ func (sched *StdScheduler) executeAndReschedule(ctx context.Context) {
 			select {
 			case sched.dispatch <- scheduled:
 			case <-ctx.Done():
-				return
+				return err
 			}
 		default:
 			sched.wg.Add(1)
@@ -630,6 +635,7 @@ func (sched *StdScheduler) executeAndReschedule(ctx context.Context) {
 			}()
 		}
 	}
+	return err
 }
 
 func (sched *StdScheduler) executeWithRetries(ctx context.Context, jobDetail *JobDetail) {
@@ -691,7 +697,7 @@ func (sched *StdScheduler) validateJob(job ScheduledJob) (bool, func() (int64, e
 	}
 }
 
-func (sched *StdScheduler) fetchAndReschedule() (ScheduledJob, bool) {
+func (sched *StdScheduler) fetchAndReschedule() (ScheduledJob, bool, error) {
 	sched.queueLocker.Lock()
 	defer sched.queueLocker.Unlock()
 
@@ -700,10 +706,10 @@ func (sched *StdScheduler) fetchAndReschedule() (ScheduledJob, bool) {
 	if err != nil {
 		if errors.Is(err, ErrQueueEmpty) {
 			sched.logger.Debug("Queue is empty")
-		} else {
-			sched.logger.Error("Failed to fetch a job from the queue", "error", err)
+			return nil, false, nil
 		}
-		return nil, false
+		sched.logger.Error("Failed to fetch a job from the queue", "error", err)
+		return nil, false, err
 	}
 
 	// validate the job
@@ -714,7 +720,7 @@ func (sched *StdScheduler) fetchAndReschedule() (ScheduledJob, bool) {
 	if err != nil {
 		sched.logger.Info("Job exited the execution loop",
 			"key", job.JobDetail().jobKey.String(), "error", err)
-		return job, valid
+		return job, valid, nil
 	}
 
 	// reschedule the job
@@ -723,7 +729,7 @@ func (sched *StdScheduler) fetchAndReschedule() (ScheduledJob, bool) {
 		trigger:  job.Trigger(),
 		priority: nextRunTime,
 	}
-	if err := sched.queue.Push(toSchedule); err != nil {
+	if err = sched.queue.Push(toSchedule); err != nil {
 		sched.logger.Error("Failed to reschedule job",
 			"key", toSchedule.JobDetail().jobKey.String(), "error", err)
 	} else {
@@ -732,7 +738,7 @@ func (sched *StdScheduler) fetchAndReschedule() (ScheduledJob, bool) {
 		sched.Reset()
 	}
 
-	return job, valid
+	return job, valid, err
 }
 
 // Reset is called internally to recalculate the closest job timing when there
